@@ -2,15 +2,14 @@ SPECIFICATION Spec
 CONSTANTS
   NF = 2
   MaxLen = 8
-  Kinds = {"stat", "mod", "modeonly", "rename", "del"}
+  Kinds = {"mod", "add", "addempty", "del", "rename", "renmod", "copy", "modeonly", "modemod", "bin", "binadd", "modebin", "renmode", "sublog", "subshort"}
   MaxHunks = 2
   MaxBody = 3
   Preamble = TRUE
   MaxConf = 1
   Buf = 1
   Fixes = {"D1", "D14", "D2", "D18", "D19", "D20", "D21", "D23"}
-  ColorOnly = FALSE
+  ColorOnly = TRUE
   ReplayLen = 0
-INVARIANTS RowsOnceInOrder Lag PrefixStable Boundary LanguageByName Replay
-PROPERTY NeverRevised
+INVARIANTS LineForLine
 CHECK_DEADLOCK FALSE
